@@ -140,6 +140,17 @@ class Check(PropertyCheck):
                                              f"the run ended with {o.get('error', o.get('deadlock'))!r} instead of a result",
                                              {"kind": "parked-twins", "spec": repr(spec), "limits": {"r0": lim}}))
             runs.append((f"parked-twins:{lim}:{cache}:{nt}", o))
+        # a FAILING call made again, by another job, after its first failure was caught, recorded and finalized, with
+        # and without a non-empty context: the completed twin must be found (seeded change C06c: the failed CallNode's
+        # context tag was not recorded, so the look-up under a context missed and the call ran again)
+        for i, ctx in enumerate([None, {"k": 1}, {"k": 2}, None]):
+            X = (f"fx{i}", "raise", f"boom{i}", (), None)
+            first = (f"fc{i}", "catch", 0, (X,), None)
+            second = (f"fd{i}", "catch", 1, ((f"fp{i}", "list", 1, (X,), None),), None)
+            spec = (f"fs{i}", "seq", 0, (first, second), {"context": ctx} if ctx else None)
+            o = sched.run_program(lambda: vm.call(spec), {"r0": 1}, random.Random(self.seed + i), cache=(i != 3))
+            o["spec"], o["limits"] = spec, {"r0": 1}
+            runs.append((f"staged-failing-twin:{ctx}", o))
         nb = 0
         for kind, o in runs:
             self.evaluations += 1
